@@ -38,6 +38,7 @@ def run(ctx):
         for k, sp in zip(idx, spec):
             a, b = imp[k].split(" | "), sp.split(" | ")
             for j, (x, y) in enumerate(zip(a, b)):
+                x = x.split(" PA ")[0]      # (with error detail on, the attempts record follows the report; C15 is about it)
                 if x.startswith("err"):
                     n += 1
                     if x != y and y not in ("fuel", "bad-op"):
